@@ -9,7 +9,7 @@ import math
 import numpy as np
 
 PROP = "C18"
-CASES = {"quick": 260, "thorough": 4000}
+CASES = {"quick": 260, "thorough": 12000}
 CASE_TIMEOUT = 240
 SHARD_TIMEOUT = {"quick": 900, "thorough": 7200}
 REQUIRED = ["layouts", "state_action_pairs", "successors_checked", "own_goal_states", "terminal_checks",
